@@ -71,7 +71,7 @@ def evaluate_inventory():
     """run the (proved sound) checker on the regenerated inventory inside Coq; returns (ok flags, report lines, rc, log)"""
     ok, log = vf.coq_make(["Cxx/C09_Gen.vo", "Cxx/C09_Defs.vo"])
     tmp = os.path.join(vf.BUILD, "c09_report.v")
-    open(tmp, "w").write('From Coq Require Import List String.\nFrom CMI Require Import Cxx.C09_Defs Cxx.C09_Gen.\n'
+    open(tmp, "w").write('From Coq Require Import List String.\nFrom CMI Require Import Cxx.C09_Defs Cxx.C09_Gen.\nSet Printing Depth 1000000.\nSet Printing Width 200.\n'
                          'Eval vm_compute in (symmetric gen_inventory, closed gen_inventory, members_ok gen_inventory).\n'
                          'Eval vm_compute in report gen_inventory.\n'
                          'Eval vm_compute in map (fun x => let \'(c, m, v) := x in (c, m, verdict_name v)) (member_verdicts gen_inventory).\n')
@@ -82,7 +82,7 @@ def evaluate_inventory():
         if len(parts) >= 4:
             flags = re.findall(r"\b(true|false)\b", parts[1])[:3]
             rep = re.findall(r'"((?:[^"]|"")*)"', parts[2].split("\n     : ")[0])
-            verdicts = re.findall(r'\("((?:[^"]|"")*)",\s*"((?:[^"]|"")*)",\s*"((?:[^"]|"")*)"\)', parts[3])
+            verdicts = re.findall(r'\(\s*"((?:[^"]|"")*)",\s*"((?:[^"]|"")*)",\s*"((?:[^"]|"")*)"\s*\)', parts[3])
     return flags, rep, verdicts, rc, (log if not ok else "") + out
 
 
@@ -154,6 +154,9 @@ def make_config(d, name, cells, subgrids, periodic=(True, True, True), copy_leve
     txt = txt.replace("anchor: [-10. m, -10. m, -10. m]", "anchor: [%r m, %r m, %r m]" % tuple(-0.5 * s for s in sides))
     if copy_level is not None:
         txt = txt.replace("  random seed: 42", "  random seed: 42\n  source copy level: %d" % copy_level)
+    if turbulence:
+        txt = txt.replace("  random seed: 42", "  random seed: 42\n  turbulent forcing: true")
+        txt += "TurbulenceForcing:\n  time step: 0.00002 s\n  forcing power: 5.e9 m^2 s^-3\n  minimum wave number: 1.\n  maximum wave number: 3.\n"
     open(os.path.join(d, name), "w").write(txt)
 
 
@@ -400,9 +403,19 @@ def component_tie(ck, b, persisted_inv):
     lines = ["RT %d" % s for s in seeds] + ["S %d %d %d %016x %016x %016x" % (n + tuple(vf.dbl_bits(x) for x in s)) for n, s in W] + ["M 7", "M 0"]
     rc, out = vf.run_lines([os.path.join(d, "comp"), os.path.join(d, "comp")], "\n".join(lines) + "\n", timeout=900)
     if rc != 0:
-        ck.breaks.append("component harness exited with %d: %s" % (rc, out[-3:]))
+        # the real classes crashed on one command (e.g. a restart constructor reading a misaligned stream): find it
+        out = []
+        for l in lines:
+            rc1, o1 = vf.run_lines([os.path.join(d, "comp"), os.path.join(d, "comp")], l + "\n", timeout=300)
+            out += o1
+            if rc1 != 0:
+                done = [x.split()[1] for x in o1 if x.startswith("RT ")]
+                ck.violation("C09 fails on the real classes: write -> read -> write harness command `%s` ends with status %d after completing %s (a restart constructor does not read what its writer wrote)"
+                             % (l, rc1, done[-3:]), {"kind": "component", "line": l}, key={"kind": "component_roundtrip", "class": "crash after " + (done[-1] if done else "start")})
+                break
     ev = 0
     names = set()
+    reported = set()
     nd3 = 0
     mline = [l for l in out if l.startswith("M ")]
     for l in out:
@@ -411,7 +424,8 @@ def component_tie(ck, b, persisted_inv):
             f = dict(x.split("=", 1) for x in l.split()[2:])
             name = l.split()[1]
             names.add(name)
-            if f.get("rewrite") != "same" or f.get("state") != "same":
+            if (f.get("rewrite") != "same" or f.get("state") != "same") and name not in reported:
+                reported.add(name)
                 ck.violation("C09 fails on the real class %s: write -> read -> write: bytes %s, restored state %s" % (name, f.get("rewrite"), f.get("state")),
                              {"kind": "component", "class": name, "line": l}, key={"kind": "component_roundtrip", "class": name})
     # S lines against the model
@@ -433,10 +447,14 @@ def component_tie(ck, b, persisted_inv):
                     if mism <= 3:
                         ck.breaks.append("correspondence C09 model <-> DensitySubGrid for n=%d side=%r: impl cell_size/inv/inv_restored=%s/%s/%s model=%s/%s/%s"
                                          % (n[a], s[a], cs[a], ic[a], ir[a], m[1], m[2], want_restored))
-            if f["state"] != "same" or f["rewrite"] != "same":
+            if "_inv_cell_size" in f["state"]:
                 nd3 += 1
                 if first_d3 is None:
                     first_d3 = {"cells": n, "sides": s, "line": l}
+            elif (f["state"] != "same" or f["rewrite"] != "same") and "HydroDensitySubGrid" not in reported:
+                reported.add("HydroDensitySubGrid")
+                ck.violation("C09 fails on the real class HydroDensitySubGrid (%s cells, sides %s): write -> read -> write: bytes %s, restored state %s" % (n, s, f["rewrite"], f["state"]),
+                             {"kind": "subgrid", "cells": n, "sides": s}, key={"kind": "component_roundtrip", "class": "HydroDensitySubGrid"})
     elif len(slines) != len(W):
         ck.breaks.append("component harness answered %d of %d subgrid cases" % (len(slines), len(W)))
     ck.coverage["subgrid_cases"] = len(W)
@@ -476,10 +494,16 @@ def trace_tie(ck, b, exe):
 
 
 def configs_for(tier_quick):
-    C = [dict(name="hydro 18^3 cells in 2x2x2 subgrids (9 cells on 10 m), periodic, moving sphere, source copies", param="hydro.param", make=None)]
+    C = [dict(name="hydro 18^3 cells in 2x2x2 subgrids (9 cells on 10 m), periodic, moving sphere, source copies", param="hydro.param", make=None),
+         dict(name="hydro 15x14x4 cells in 3x2x1 subgrids (5x7x4 cells per subgrid), box 20^3, periodic in y only, copy level 1", param="geo3.param",
+              make=dict(cells=(15, 14, 4), subgrids=(3, 2, 1), periodic=(False, True, False), copy_level=1))]
     if not tier_quick:
         C.append(dict(name="hydro 15x14x8 cells in 3x2x2 subgrids (5x7x4 cells per subgrid), box 20x20x20, periodic, copy level 1", param="geo2.param",
                       make=dict(cells=(15, 14, 8), subgrids=(3, 2, 2), copy_level=1)))
+        C.append(dict(name="hydro 18^3 cells in 2x2x2 subgrids, periodic, turbulence forcing on (AlveliusTurbulenceForcing dumped), no copies", param="turb.param",
+                      make=dict(cells=(18, 18, 18), subgrids=(2, 2, 2), copy_level=0, turbulence=True)))
+        C.append(dict(name="hydro 21x6x10 cells in 3x2x2 subgrids on a 7 x 2.2 x 3.1 m box, periodic", param="geo4.param",
+                      make=dict(cells=(21, 6, 10), subgrids=(3, 2, 2), sides=(7., 2.2, 3.1), copy_level=0)))
     return C
 
 
@@ -669,9 +693,12 @@ def replay(ck, rp):
         elif kind == "mask":
             line = "M %d" % r["snap_n"]
         else:
-            line = "RT 1\nRT 2\nRT 3"
+            line = r["line"] if r.get("line", "").split()[:1] and r["line"].split()[0] in ("RT", "S", "M") and len(r["line"].split()) <= 7 else "RT 1\nRT 2\nRT 3"
         rc, out = vf.run_lines([os.path.join(d, "comp"), os.path.join(d, "comp")], line + "\n")
         print("\n".join(out))
+        if rc != 0:
+            print("REPLAY: harness ends with status %d" % rc)
+            return 1
         bad = [l for l in out if "DIFF" in l or (l.startswith("M ") and (l.split()[1].split("=")[1] != l.split()[2].split("=")[1] or l.split()[3].split("=")[1] != l.split()[4].split("=")[1]))]
         print("REPLAY:", ("restored state differs from the dumped state: " + bad[0]) if bad else "property holds on this input")
         return 1 if bad else 0
